@@ -22,6 +22,7 @@
 -/
 import LemoProofs.Lemmas.JournalReplay
 import LemoProofs.C07Merge
+import LemoProofs.C07Copy
 namespace LemoProofs.C07
 open LemoModel.Journal LemoProofs.JournalStep LemoProofs.JournalReplay
 
